@@ -832,7 +832,11 @@ class StmtGen:
         for i in range(r.randrange(1, 3)):
             q = self.select(depth + 1, simple=True)
             if r.random() < 0.2:
-                q = dict(kind="setop", left=q, op=r.choice(["UNION", "EXCEPT", "INTERSECT"]), all=r.random() < 0.4, right=self.select(depth + 1, simple=True))
+                right = self.select(depth + 1, simple=True)
+                # operands of set operations carry no ORDER BY / LIMIT of their own (known finding setop-trailing-order-by)
+                for x in (q, right):
+                    for k in ("order_by", "limit", "offset", "fetch", "for_"): x[k] = [] if k == "order_by" else None
+                q = dict(kind="setop", left=q, op=r.choice(["UNION", "EXCEPT", "INTERSECT"]), all=r.random() < 0.4, right=right)
             ctes.append(dict(name="cte%d" % (i + 1), cols=[r.choice(IDENTS) for _ in range(r.randrange(0, 3))], stmt=q,
                              mat=r.choice([None, None, None, True, False])))
         return dict(recursive=r.random() < 0.2, ctes=ctes)
